@@ -121,9 +121,20 @@ def verify_function(c: Contract, registry: Dict[str, Contract]) -> FunctionResul
                 for i, e in enumerate(c.ensures):
                     g = ex.spec_bool(s, e, env2, fi, old=entry)
                     ex.oblige(f"post[{i}]#p{pi}", s, g, fi.lineno, "post", e)
+                exempt = cell_exemptions(ex, c, fi, s, entry, env2)
+                for cond, cfields in c.cmodifies:
+                    g0 = ex.spec_bool(s, f"old({cond})", env2, fi, old=entry)
+                    for m in cfields:
+                        m2 = front.mangle(m, fi.cls.name if fi.cls else None)
+                        if m2 in s.heap and not (m2 in s.heap0 and s.heap[m2] is s.heap0[m2]):
+                            rq = fresh("rq", z3.IntSort())
+                            same = z3.ForAll([rq], z3.Implies(z3.And([rq >= 0, rq < s.alloc0] + [rq != x for x in exempt.get(m2, [])]),
+                                                              z3.Select(s.harr(m2), rq) == z3.Select(entry.harr(m2), rq)))
+                            ex.oblige(f"cframe[{m2}]#p{pi}", s, z3.Or(g0, same), fi.lineno, "frame",
+                                      f"field {m2} is written only when {cond}")
                 for m in frame_fields(c, fi, s):
                     rq = fresh("rq", z3.IntSort())
-                    pre_existing = z3.ForAll([rq], z3.Implies(z3.And(rq >= 0, rq < s.alloc0),
+                    pre_existing = z3.ForAll([rq], z3.Implies(z3.And([rq >= 0, rq < s.alloc0] + [rq != x for x in exempt.get(m, [])]),
                                                               z3.Select(s.harr(m), rq) == z3.Select(entry.harr(m), rq)))
                     ex.oblige(f"frame[{m}]#p{pi}", s, pre_existing, fi.lineno, "frame",
                               f"field {m} of every object that existed at entry is unchanged")
@@ -179,6 +190,24 @@ def verify_function(c: Contract, registry: Dict[str, Contract]) -> FunctionResul
     return res
 
 
+def cell_exemptions(ex, c: Contract, fi: front.FuncInfo, s: State, entry: State, env) -> Dict[str, List[Any]]:
+    """refs named by cell-level modifies entries ("obj.field", "obj.$list", "obj.$dict"), evaluated in the entry state"""
+    out: Dict[str, List[Any]] = {}
+    cls = fi.cls.name if fi.cls is not None else None
+    for m in c.modifies:
+        if "." in m and not m.startswith("$") and not m.startswith("ns."):
+            objtxt, fld = m.rsplit(".", 1)
+            if objtxt.split(".")[0] in c.ghost:
+                continue
+            o = ex.eval_spec(s, f"old({objtxt})", env, fi, old=entry)
+            if o.z is None:
+                continue
+            r = V.r(o.z)
+            for f in {"$list": ["$llen", "$litems"], "$dict": ["$dlen", "$ddom", "$dval"]}.get(fld, [front.mangle(fld, cls)]):
+                out.setdefault(f, []).append(r)
+    return out
+
+
 def frame_fields(c: Contract, fi: front.FuncInfo, st: State) -> List[str]:
     """Heap fields that were touched on this path but are not in the modifies clause."""
     if "*" in c.modifies:
@@ -189,13 +218,12 @@ def frame_fields(c: Contract, fi: front.FuncInfo, st: State) -> List[str]:
     cls = fi.cls.name if fi.cls is not None else None
     allowed = set()
     for m in c.modifies:
-        f = m.rsplit(".", 1)[-1] if ("." in m and not m.startswith("$") and not m.startswith("ns.")) else m
-        if f == "$list":
-            allowed |= {"$llen", "$litems"}
-        elif f == "$dict":
-            allowed |= {"$ddom", "$dval", "$dlen"}
-        else:
-            allowed.add(front.mangle(f, cls))
+        if "." in m and not m.startswith("$") and not m.startswith("ns."):
+            continue  # cell-level entry: handled by cell_exemptions
+        allowed.add(front.mangle(m, cls))
+    for _, cf in c.cmodifies:
+        for m in cf:
+            allowed.add(front.mangle(m, cls))
     out = []
     if not c.modifies and not c.pure and not getattr(c, "check_frame", False):
         return []
@@ -204,8 +232,6 @@ def frame_fields(c: Contract, fi: front.FuncInfo, st: State) -> List[str]:
             continue
         if f in st.heap0 and arr is st.heap0[f]:
             continue
-        if f in ("$llen", "$litems", "$ddom", "$dval", "$dlen"):
-            continue  # container cells of freshly allocated objects; precise container frames are stated in ensures
         out.append(f)
     return out
 
@@ -218,7 +244,13 @@ def solve(ob: Obligation) -> None:
     s.set("random_seed", int(os.environ.get("VERIF_SEED", "0")) % (2 ** 30))
     for a in INTERN.string_axioms():
         s.add(a)
+    from .exec import has_quantifier
+
     for p in ob.pc:
+        # reachability covers are decided on the quantifier-free part of the path condition (a sat answer in the
+        # presence of quantifiers is beyond the solver); proof obligations always use the full path condition
+        if ob.kind == "cover" and has_quantifier(p):
+            continue
         s.add(p)
     s.add(z3.Not(ob.goal))
     r = s.check()
